@@ -41,6 +41,8 @@ func (s *Session) AbortTransaction(context.Context) error {
 	// acquire lock
 	s.mutex.Lock()
 	defer s.mutex.Unlock()
+	defer verifAt("sabort.return")
+	verifAt("sabort.locked")
 
 	// check if ended
 	if s.ended {
@@ -83,6 +85,8 @@ func (s *Session) CommitTransaction(context.Context) error {
 	// acquire lock
 	s.mutex.Lock()
 	defer s.mutex.Unlock()
+	defer verifAt("scommit.return")
+	verifAt("scommit.locked")
 
 	// check if ended
 	if s.ended {
@@ -112,6 +116,8 @@ func (s *Session) EndSession(context.Context) {
 	// acquire lock
 	s.mutex.Lock()
 	defer s.mutex.Unlock()
+	defer verifAt("send.return")
+	verifAt("send.locked")
 
 	// check if ended
 	if s.ended {
@@ -165,9 +171,11 @@ func (s *Session) startTransaction(ctx context.Context, opts ...*options.Transac
 	}
 	s.starting = true
 	s.mutex.Unlock()
+	verifAt("sstart.reserved")
 
 	// create transaction
 	txn, err := s.engine.Begin(ctx, true)
+	verifAt("sstart.begun", err == nil)
 
 	// finalize under the lock; always clear the starting flag
 	s.mutex.Lock()
